@@ -8,6 +8,7 @@ from ..num import wire, unwire, canon
 from ..pools import RecPool
 
 STREAMS = ["ops-exact"]
+REGENERATE_SRC = True
 RULE = ("uniform / weighted(supply|utilisation|allocation) composites over 0..8 (thorough 0..40) children "
         "with exact Fraction attributes (all-zero weights, one non-zero weight, equal weights, magnitudes "
         "10^±9), op histories of demand writes, child state changes, children added/removed; an extra "
